@@ -600,3 +600,14 @@ Proof.
   destruct (predict_spec true k thr fold_of targets raw Hl Hf c out Hc H) as [_ G].
   destruct (G r Hr) as (ys & Hys & _ & _ & Hn). exists ys. split; [exact Hys|exact Hn].
 Qed.
+
+(* ====================== C04: the held-out fold cannot influence its own model ====================== *)
+Theorem train_noninterference {row : Type} (tbl tbl' : list row) fold :
+  length tbl = length tbl' ->
+  (forall i, ~ In i fold -> nth_error tbl i = nth_error tbl' i) ->
+  map (nth_error tbl) (bw_complement (length tbl) fold)
+  = map (nth_error tbl') (bw_complement (length tbl') fold).
+Proof.
+  intros Hl Hag. rewrite <- Hl. apply map_ext_in. intros i Hi.
+  apply complement_spec in Hi. apply Hag. tauto.
+Qed.
